@@ -6,6 +6,7 @@ import (
 	"fmt"
 	"io"
 	"net"
+	"os"
 	"strings"
 	"sync"
 	"time"
@@ -37,7 +38,8 @@ type WireStall struct {
 
 // WireCase is one generated case.
 type WireCase struct {
-	Op       string      `json:"op"`                   // put | putmany | create | cas | casretry
+	Op       string      `json:"op"`                   // put | putmany | create | cas | casretry | waitprolong
+	LeadMs   int         `json:"lead_ms,omitempty"`    // waitprolong: the record (expiry OldExpMs ahead) is prolonged this long before it would expire, while a waiter polls it
 	ExpMs    int         `json:"exp_ms"`               // expiry of the record(s) the call writes, from the start of the call
 	OldExpMs int         `json:"old_exp_ms,omitempty"` // create: expiry of the record the key holds before the call (it lapses inside the call); 0 = none, removed by the harness during the first stall
 	N        int         `json:"n,omitempty"`          // putmany: number of records (expiries ExpMs, ExpMs+60, ...)
@@ -51,6 +53,7 @@ type WireInfo struct {
 	Wrote              int  // records with an expiry written by the call
 	Commands           int
 	Retried            int
+	Exact              bool // the verdict does not depend on a time tolerance: no confirmation runs
 }
 
 type wireSrv struct {
@@ -64,8 +67,9 @@ type wireSrv struct {
 	onFirst func() // runs once, before the first stall
 	log     []string
 	t0      time.Time
-	onCmd   map[int]func() // runs right before the given command is forwarded
-	preTTL  bool           // a stall happened and a TTL-carrying write followed it
+	onCmd   map[int]func()       // runs right before the given command is forwarded
+	onEach  func(names []string) // runs before every command of the call under test
+	preTTL  bool                 // a stall happened and a TTL-carrying write followed it
 
 	firstDone, stallSeen bool
 }
@@ -147,6 +151,15 @@ func (c *wireConn) Write(b []byte) (int, error) {
 		if f := w.onCmd[j]; f != nil {
 			at = f
 		}
+		if w.onEach != nil {
+			f, prev := w.onEach, at
+			at = func() {
+				if prev != nil {
+					prev()
+				}
+				f(names)
+			}
+		}
 		if carries && w.stallSeen {
 			w.preTTL = true
 		}
@@ -190,7 +203,7 @@ func RunWire(c WireCase) (info WireInfo, v *vstat.Violation) {
 		cc.Scale = c.Scale + attempt
 		info, v = runWire(cc)
 		info.Retried = attempt
-		if v == nil {
+		if v == nil || info.Exact {
 			return
 		}
 	}
@@ -270,6 +283,70 @@ func runWire(c WireCase) (info WireInfo, v *vstat.Violation) {
 				}
 			}}
 		}
+	}
+	if c.Op == "waitprolong" {
+		// a waiter polls a record that is about to expire; shortly before the expiry the record is prolonged by an hour
+		// (CasByVersion, or Put for odd LeadMs). The key exists without interruption, so the waiter must end with nil
+		// (the version changed) - never with ErrNotExist.
+		w.sync()
+		e1 := time.Now().Add(ms(c.OldExpMs))
+		r0, err := raw.Put(ctx, kvs.Record{Key: wireKey, Value: []byte("old"), ExpiresAt: &e1})
+		if err != nil {
+			return info, vstat.V("wire:setup", "Put: %v", err)
+		}
+		w.mu.Lock()
+		w.armed, w.n, w.t0 = true, 0, time.Now()
+		w.mu.Unlock()
+		wctx, cancel := context.WithTimeout(ctx, ms(c.OldExpMs)+5*time.Second)
+		defer cancel()
+		done := make(chan error, 1)
+		go func() { done <- st.WaitForVersionChange(wctx, wireKey, r0.Version) }()
+		// the prolongation follows (1 ms later) the first poll of the waiter that comes less than LeadMs before the expiry, or
+		// happens LeadMs/4 before the expiry at the latest
+		far := time.Now().Add(time.Hour)
+		var perr error
+		var once sync.Once
+		prolonged := make(chan struct{})
+		prolong := func() {
+			once.Do(func() {
+				w.sync()
+				if c.LeadMs%2 == 1 {
+					_, perr = raw.Put(ctx, kvs.Record{Key: wireKey, Value: []byte("new"), ExpiresAt: &far})
+				} else {
+					_, perr = raw.CasByVersion(ctx, kvs.Record{Key: wireKey, Value: []byte("new"), Version: r0.Version, ExpiresAt: &far})
+				}
+				close(prolonged)
+			})
+		}
+		w.mu.Lock()
+		w.onEach = func(names []string) {
+			if len(names) == 1 && names[0] == "get" && time.Until(e1) < ms(c.LeadMs) {
+				go func() { time.Sleep(time.Millisecond); prolong() }()
+			}
+		}
+		w.mu.Unlock()
+		go func() { time.Sleep(time.Until(e1.Add(-ms(c.LeadMs) / 4))); prolong() }()
+		<-prolonged
+		prolongedAt := time.Now()
+		werr := <-done
+		w.mu.Lock()
+		w.armed = false
+		info.Commands = w.n
+		w.mu.Unlock()
+		if perr != nil || !prolongedAt.Before(e1) {
+			if os.Getenv("WIRE_DEBUG") != "" {
+				fmt.Fprintf(os.Stderr, "waitprolong not judged: perr=%v prolonged %v before expiry, waiter=%v\n", perr, e1.Sub(prolongedAt), werr)
+			}
+			return info, nil // the machine was too slow: the record had expired before it could be prolonged - nothing to judge
+		}
+		info.StalledBeforeWrite, info.Wrote, info.Exact = true, 1, true
+		if werr != nil {
+			return info, fail("wire:waiter-reports-live-record-missing", "a record expiring %v after its creation was prolonged by an hour %v before that moment (the key existed without interruption, its version changed); the WaitForVersionChange polling it returned %v, want nil", ms(c.OldExpMs), e1.Sub(prolongedAt), werr)
+		}
+		if r, err := raw.Get(ctx, wireKey); err != nil || string(r.Value) != "new" {
+			return info, fail("wire:dropped-early", "the prolonged record is not readable afterwards: (%q, %v)", r.Value, err)
+		}
+		return info, nil
 	}
 	// --- the call under test
 	w.mu.Lock()
